@@ -205,11 +205,20 @@ func idRequestURI(id int) string {
 func idBody(id int) string { return fmt.Sprintf("body-%d-%s", id, strings.Repeat("z", id%50)) }
 
 // script: what the invocation for id writes
-func idKind(id int) int { return (id / 4) % 6 }
+func idKind(id int) int { return (id / 4) % 8 }
+
+// realServerMode is set by the stage that talks to a real server (one stage per process): two of the scripts
+// only make sense against a recorder.
+var realServerMode bool
 func idCode(id int) int { return 200 + (id*37)%400 }
 
 func expectedCode(id int) int {
-	if k := idKind(id); k >= 2 && k <= 4 {
+	switch k := idKind(id); {
+	case k >= 2 && k <= 4:
+		return idCode(id)
+	case k == 6 && !realServerMode:
+		return http.StatusSwitchingProtocols
+	case k == 7 && !realServerMode:
 		return idCode(id)
 	}
 	return 200
@@ -338,6 +347,22 @@ func (e *env) inner(w http.ResponseWriter, r *http.Request) {
 		body := "resp-" + idStr
 		_, _ = fmt.Fprintf(conn, "HTTP/1.1 200 OK\r\nX-Id: %s\r\nContent-Length: %d\r\nConnection: close\r\n\r\n%s", idStr, len(body), body)
 		_ = conn.Close()
+	case 6:
+		// 101 is the one 1xx code that is final
+		if !e.realSrv {
+			w.WriteHeader(http.StatusSwitchingProtocols)
+		}
+	case 7:
+		if e.realSrv {
+			_, _ = io.WriteString(w, "resp-"+idStr)
+			break
+		}
+		// a handler that sets its code and then aborts the way net/http documents; the caller recovers
+		w.WriteHeader(idCode(id))
+		if l != nil && id%3 == 0 {
+			l.Info("inner-late", "id", id)
+		}
+		panic(http.ErrAbortHandler)
 	}
 	if l != nil && id%3 == 0 {
 		l.Info("inner-late", "id", id)
@@ -361,7 +386,7 @@ func mkRequest(id int) *http.Request {
 }
 
 func expectedBody(id int) string {
-	if idKind(id) == 0 {
+	if k := idKind(id); k == 0 || k == 6 || (k == 7 && !realServerMode) {
 		return ""
 	}
 	return "resp-" + strconv.Itoa(id)
@@ -539,7 +564,14 @@ func batch(e *env, h http.Handler, ids []int, k int, order []int) []response {
 			defer wg.Done()
 			defer func() { finished <- struct{}{} }()
 			rec := httptest.NewRecorder()
-			h.ServeHTTP(rec, mkRequest(id))
+			func() {
+				defer func() {
+					if v := recover(); v != nil && v != http.ErrAbortHandler {
+						panic(v)
+					}
+				}()
+				h.ServeHTTP(rec, mkRequest(id))
+			}()
 			resps[i] = response{id, rec.Code, rec.Body.String(), rec.Header().Get("X-Id")}
 		}()
 	}
@@ -659,6 +691,7 @@ func TestIsolation(t *testing.T) {
 // TestServer drives a real httptest.Server over loopback with keep-alive
 // clients.
 func TestServer(t *testing.T) {
+	realServerMode = true
 	r := mon.Start("C20", "server")
 	rounds := r.Pick(6, 60)
 	perClient := r.Pick(150, 600)
